@@ -35,6 +35,7 @@ pub const M64: [u64; 4] = [
 ];
 
 pub const DRAW_CAP: usize = 20_000;
+pub const TAIL_SEED: u64 = 0x5EED_7A11;
 
 struct Tl {
     script: Vec<u8>,
@@ -42,9 +43,16 @@ struct Tl {
     m32: Vec<u32>,
     m64: Vec<u64>,
     kinds: Vec<u8>, // 32 or 64 per draw of the last call
+    /// draws at positions >= choice_cap are not choice points: they come from a
+    /// fair pseudo-random tail, re-seeded identically at every `set_script`
+    /// ("any finite prefix of arbitrary words followed by fair outputs"; a
+    /// constant stream is a degenerate source under which rejection samplers
+    /// legitimately never accept)
+    choice_cap: usize,
+    tail: Xoshiro256StarStar,
 }
 thread_local! {
-    static TL: RefCell<Tl> = RefCell::new(Tl { script: vec![], pos: 0, m32: M32[..2].to_vec(), m64: M64[..2].to_vec(), kinds: vec![] });
+    static TL: RefCell<Tl> = RefCell::new(Tl { script: vec![], pos: 0, m32: M32[..2].to_vec(), m64: M64[..2].to_vec(), kinds: vec![], choice_cap: 10, tail: Xoshiro256StarStar::seed_from_u64(TAIL_SEED) });
 }
 
 /// Set the menu sizes used by this thread's explorer (how many alternatives a
@@ -70,10 +78,21 @@ pub fn set_script(s: &[u8]) {
         c.script.extend_from_slice(s);
         c.pos = 0;
         c.kinds.clear();
+        c.tail = Xoshiro256StarStar::seed_from_u64(TAIL_SEED);
     });
+}
+pub fn set_choice_cap(n: usize) {
+    TL.with(|c| c.borrow_mut().choice_cap = n);
 }
 /// Number of choice points hit since the last `set_script`.
 pub fn draws() -> usize {
+    TL.with(|c| {
+        let c = c.borrow();
+        c.pos.min(c.choice_cap)
+    })
+}
+/// all draws of the last run, including those served by the fair tail
+pub fn total_draws() -> usize {
     TL.with(|c| c.borrow().pos)
 }
 /// Number of alternatives at choice point `i` of the last run.
@@ -94,6 +113,10 @@ fn next_choice(kind: u8) -> u64 {
         c.pos += 1;
         if i >= DRAW_CAP {
             panic!("draw cap exceeded: more than {} random draws in one call", DRAW_CAP);
+        }
+        if i >= c.choice_cap {
+            let w = c.tail.next_u64();
+            return if kind == 32 { (w >> 32) as u32 as u64 } else { w };
         }
         c.kinds.push(kind);
         let n = if kind == 32 { c.m32.len() } else { c.m64.len() };
